@@ -55,7 +55,9 @@ Check(e) ==
         \* burned whole loya b: b*10^6 + dust' - dust = fractions added, 0 <= fractions < 2*10^6
         LET bdust == Monus(supply, b.supply)
             lhs == (bdust ** Pow10(6)) ++ e.post.dispute.dust
+        \* and what is carried over is below one unit (whole units of dust are burned with the withdrawal that completes them)
         IN (IF b.supply \preceq supply /\ LDustBurn(bdust) /\ dust \preceq lhs /\ (lhs -- dust) \prec (N(2) ** Pow10(6))
+               /\ (~e.ok \/ e.post.dispute.dust \prec Pow10(6))
             THEN {} ELSE {"RefundBurnsOnlyAccumulatedDust"})
    ELSE frame)
   \cup (IF InflationBoundAt(ivals', lnow') THEN {} ELSE {"InflationBound"})
